@@ -256,7 +256,8 @@ def pep_friendly(vpattern):
 
 
 def gen_project(rng, mode="plain", syntaxes=None, allow_mixed=True, max_files=4, family=None, vcs="maybe",
-                allow_odd_paths=True, allow_glob=True, pep_any=False, force_pep=False, zero_bid=False, legacy=False, clock_patterns=True):
+                allow_odd_paths=True, allow_glob=True, pep_any=False, force_pep=False, zero_bid=False, legacy=False, clock_patterns=True,
+                allow_symlinks=True):
     while True:
         if legacy:
             pat = {"pattern": rng.choice(gp.LEGACY_PATTERNS), "family": "legacy", "unit": None}
@@ -459,6 +460,13 @@ def gen_project(rng, mode="plain", syntaxes=None, allow_mixed=True, max_files=4,
         vcs_spec = {"personality": "git", "remote": rng.random() < 0.8}
     else:
         vcs_spec = None
+    if vcs_spec is None and allow_symlinks and rng.random() < 0.12:
+        # a configured file that is a symbolic link (README.md -> docs/README.md): it is read and written through the link,
+        # the link stays a link.  (Only without VCS: the changed target is not a configured path and would stay uncommitted.)
+        cands = [x for x in files if not x.get("overlap")]
+        grp = [x for x in cands if x.get("glob_group")]
+        f = rng.choice(grp) if (grp and rng.random() < 0.6) else rng.choice(cands)
+        f["symlink_to"] = "realfiles/" + f["path"].replace("/", "_").replace(" ", "_") + ".real"
     style = {}
     if ini:
         style = {"quote": rng.choice(['"', '"', "'", ""]), "bool_true": rng.choice(configsyn.INI_TRUE),
